@@ -2,6 +2,7 @@
 //! harness replay <check> <args..>                      -> re-executes one case on the real code
 mod c04;
 mod c04bash;
+mod c04text;
 mod c06;
 mod c07bash;
 mod c09bash;
